@@ -217,6 +217,34 @@ def main(argv):
                        % (pool[i].src(), pool[j].src(), m, r))
     # ---- the laws on the implementation alone
     checked = law_search(pool, table, res)
+    # ---- aliasing: the ten observations depend on the two VALUES, not on whether both operands are the same
+    # heap cell (one binding used twice, a shared inner list) — compared with the same values written out twice
+    alias_src = [v.src() for v in pool] + ["[1, null]", "[null]", "{k: null}", "[0 / 0]", "[[0 / 0], [1]]", "{a: 0 / 0}",
+                                           "[x => x]", "[1, [2, null]]", "[sum]", "{k: [0 / 0, 1]}"]
+    alines, ameta = [], []
+    for vs in alias_src:
+        variants = [("a = %s\nb = %s\n" % (vs, vs), "a = %s\nb = a\n" % vs, "one binding used for both operands"),
+                    ("a = [%s, 1]\nb = [%s, 2]\n" % (vs, vs), "s9 = %s\na = [s9, 1]\nb = [s9, 2]\n" % vs,
+                     "a shared inner value"),
+                    ("a = [%s]\nb = [%s]\n" % (vs, vs), "s9 = %s\na = [s9]\nb = [s9]\n" % vs, "a shared only element")]
+        for lit, ali, why in variants:
+            for head in (lit, ali):
+                alines.append(c.hexs(head + "[a .== b, a .!= b, ugt(a, b), ult(a, b), ugte(a, b), ulte(a, b)]"))
+                for op in OPS:
+                    alines.append(c.hexs(head + "a %s b" % op))
+            ameta.append((lit, ali, why))
+    aouts = c.harness_lines_resilient(h, "eval", alines)
+    alias_bad = 0
+    for k, (lit, ali, why) in enumerate(ameta):
+        s_lit, _ = decode_rust(aouts[10 * k:10 * k + 5])
+        s_ali, _ = decode_rust(aouts[10 * k + 5:10 * k + 10])
+        if s_lit is not None and s_ali is not None and s_lit != s_ali:
+            alias_bad += 1
+            if alias_bad <= 3:
+                res.violation("equality / ordering observations depend on heap identity (%s), not on the values" % why,
+                              {"kind": "impl-law", "program": ali + "[a .== b, a .!= b, ugt(a, b), ult(a, b), ugte(a, b), ulte(a, b)]  and  a .< b, a .<= b, a .> b, a .>= b",
+                               "reference_program": lit + "...", "observed": s_ali, "expected": s_lit,
+                               "legend": "eq ne ugt ult ugte ulte lt le gt ge (T/F/E)"})
     # prefix-first
     pp = prefix_pairs(rng, 200 if tier == "quick" else 3000)
     plines = [c.hexs("a = %s\nb = %s\n[a .< b, b .> a, a .== b]" % (a.src(), b.src())) for a, b in pp]
@@ -240,6 +268,7 @@ def main(argv):
     res.coverage["samples"] = [{"a": pool[i].src(), "b": pool[j].src(), "impl": table[(i, j)]}
                                for i, j in [pairs[rng.below(len(pairs))] for _ in range(5)]]
     res.coverage["traces_validated_against_impl"] = len(pairs) - len(mism)
+    res.streams["ALIAS"] = {"values": len(alias_src), "variants": len(ameta), "identity_dependent": alias_bad}
     res.streams["EVAL-dot"] = {"pairs": len(pairs), "mismatches": len(mism), "pool": n,
                                "impl_laws_checked": checked,
                                "types": {t: sum(1 for v in pool if v.tname() == t)
